@@ -300,7 +300,7 @@ int main(int argc, char **argv) {
     explore_layout("3 nodes, edge bent round node 2", scenes3(true), {15, 45}); explore_layout("3 nodes, straight edge", scenes3(false), {25});
     explore_layout("4 nodes, edge bent round node 2, node 3 free", scenes4bent(), {15, 45});
     explore_resize("3 nodes, edge bent round node 2", scenes3(true), 30); explore_resize("3 nodes, straight edge", scenes3(false), 30); explore_resize_hetero();
-    if (T) { explore_layout("3 nodes, straight edge", scenes3(false), {10, 60}); explore_layout("4 nodes, two straight edges", scenes4(), {15, 45}); explore_pairs("4 abutting nodes on 4x4 cells, one edge", scenes4abut(4, 4), {0, 10, 20, 30}); explore("4 abutting nodes on 3x3 cells, one edge", scenes4abut(3, 3), 2, {0, 10, 20});
+    if (T) { explore("4 nodes, edge bent round node 2, node 3 free", scenes4bent(), 2, {0, 20, 40, 60}); explore_layout("3 nodes, straight edge", scenes3(false), {10, 60}); explore_layout("4 nodes, two straight edges", scenes4(), {15, 45}); explore_pairs("4 abutting nodes on 4x4 cells, one edge", scenes4abut(4, 4), {0, 10, 20, 30}); explore("4 abutting nodes on 3x3 cells, one edge", scenes4abut(3, 3), 2, {0, 10, 20});
              explore("3 nodes, straight edge", scenes3(false), 3, {0, 20, 40, 60}); explore("3 nodes, edge bent round node 2", scenes3(true), 3, {0, 20, 40, 60}); }
     return ctx.finish();
 }
